@@ -830,9 +830,9 @@ class PlaneTensor(SubspaceTensor):
         ind_short = np.indices(self.shape[:-1], sparse=True)
         s = ind.shape
         a = tuple(np.delete(ind, np.ravel_multi_index((*tuple(np.indices(s)[:-1]), i), s)).reshape(s[:-1] + (-1,)))
-        result[(*ind_short, i.squeeze())] = self.array[a]
+        result[(*ind_short, i.squeeze(-1))] = self.array[a]
         b = np.arange(n - 1).reshape((1,) * (len(self.shape) - 1) + (n - 1,))
-        result[(*a, b)] = -self.array[(*ind_short, i.squeeze(), None)]
+        result[(*a, b)] = -self.array[(*ind_short, i.squeeze(-1), None)]
         q, r = np.linalg.qr(result)
         return np.swapaxes(q, -1, -2)
 
